@@ -6,5 +6,13 @@ PLANS = {
         mc=[], gen=[], drive=True,
         assumptions=[],
     ),
+    "C06": dict(
+        mcgen=[dict(model="MC_Round", quick="MC_Round_quick.cfg", thorough="MC_Round_thorough.cfg")],
+        drive=True,
+    ),
+    "C07": dict(
+        mcgen=[dict(model="MC_Round", quick="MC_Round_quick.cfg", thorough="MC_Round_thorough.cfg")],
+        drive=True,
+    ),
     "C18": dict(mc=[], gen=[], drive=True),
 }
